@@ -49,6 +49,11 @@ type Case struct {
 	Metrics  []MSpec `json:"metrics"`
 	Stream   []SOp   `json:"stream"`
 	Strategy string  `json:"strategy"`
+	// Pred: before the reporter under test is built, ANOTHER reporter exists in the process (its own
+	// destination): 1 same wire protocol, closed again; 2 the OTHER wire protocol, closed again; 3 the
+	// other protocol, still open during the whole case. Reporters are independent objects: what one
+	// measures and sends must not depend on the other.
+	Pred int `json:"pred,omitempty"`
 }
 
 func genTags(t *rapid.T, max int) pbt.M {
@@ -77,6 +82,7 @@ func gen(t *rapid.T) Case {
 	c.Big = rapid.IntRange(2000, 65000).Draw(t, "big")
 	c.Common = genTags(t, 8)
 	c.Queue = rapid.SampledFrom([]int{1, 2, 16, 4096}).Draw(t, "queue")
+	c.Pred = rapid.SampledFrom([]int{0, 0, 0, 1, 2, 2, 3}).Draw(t, "pred")
 	switch rapid.IntRange(0, 49).Draw(t, "preAge") {
 	case 0:
 		c.PreAge = 17000
@@ -226,6 +232,34 @@ func run(c Case) (pbt.Outcome, error) {
 	batches := 0
 	var charges []chargeRec
 	var overhead, free int32
+	// (the predecessor comes and - unless Pred is 3 - goes before the hooks are installed: they are
+	// process-wide and would count its batches as the judged reporter's)
+	if c.Pred > 0 {
+		psink, perr := udpsink.New()
+		if perr != nil {
+			return out, fmt.Errorf("harness: cannot open sink: %v", perr)
+		}
+		defer psink.Close()
+		pproto := m3.Compact
+		if c.Binary == (c.Pred == 1) {
+			pproto = m3.Binary // Pred 1: the same protocol as the reporter under test; 2, 3: the other one
+		}
+		pred, perr := m3.NewReporter(m3.Options{HostPorts: []string{psink.Addr}, Service: "pred", Env: "test", Protocol: pproto})
+		if perr != nil {
+			return out, fmt.Errorf("harness: NewReporter (predecessor): %v", perr)
+		}
+		pred.AllocateCounter("pred", map[string]string{"k": "v"}).ReportCount(1)
+		pred.Flush()
+		if !psink.WaitAll(1) {
+			return out, fmt.Errorf("harness: the predecessor reporter's datagram did not arrive")
+		}
+		if c.Pred == 3 {
+			defer pred.Close()
+		} else {
+			_ = pred.Close()
+		}
+		out.Classes = append(out.Classes, fmt.Sprintf("predecessor-reporter-%d", c.Pred))
+	}
 	m3.VerifSetHooks(&m3.VerifHooks{
 		NoteBatch: func(mets []m3thrift.Metric, ct []m3thrift.MetricTag, freeBytes, overheadBytes int32) {
 			mu.Lock()
